@@ -2085,13 +2085,15 @@ def run(ck: Ck) -> None:
             'no_unclassified_release_site': 'forallb (fun x : kind * site * String.string => match snd (fst x) with SOther => false | _ => true end) release_sites',
         })
         prog = [r[0] for r in side.get('parse_program', [])] or None
-        guarded(ck, 'idman', corr_idman)
-        guarded(ck, 'fixup', corr_fixups, bool(side.get('fixup_init_requires_positive')), bool(side.get('fixup_init_defers', True)))
+        failed = sorted(n for n, ok in res.items() if not ok)
+        if failed:      # a premise of the theorems does not hold on this tree: search with the large budgets from the first stage on
+            ck.tie_broken.append('instance obligations: ' + ', '.join(failed))
         ror = any(r[0] == 'KEnt' and r[1] != 'SDel' for r in side.get('releases', []))
-        guarded(ck, 'lifecycle', corr_lifecycle, ror)
-        guarded(ck, 'world', corr_world, prog)
-        guarded(ck, 'node', corr_nodes)
-        guarded(ck, 'parse', corr_parse, prog)
+        stages = [('idman', corr_idman, ()), ('fixup', corr_fixups, (bool(side.get('fixup_init_requires_positive')), bool(side.get('fixup_init_defers', True)))),
+                  ('lifecycle', corr_lifecycle, (ror,)), ('world', corr_world, (prog,)), ('node', corr_nodes, ()), ('parse', corr_parse, (prog,))]
+        escalated_from_start = bool(ck.tie_broken)
+        for name, fn, args in stages:
+            guarded(ck, name, fn, *args)
     guarded(ck, 'search', search_lifecycle)
     if th is not None:
         th.result()
@@ -2102,6 +2104,17 @@ def run(ck: Ck) -> None:
     for stage, gen, fut in _pending:
         guarded(ck, stage, None, resume=(gen, fut))
     del _pending[:]
+    if built and ck.tie_broken and not escalated_from_start and not _hung:
+        # a correspondence disagrees, and its verdict came after every stage had generated its cases with the small budgets (the Coq
+        # evaluations run in the background): once more, one stage after the other, with the large budgets a broken tie gets --
+        # that is where the failing input usually comes from.  The obligations of the second pass carry the larger samples.
+        ck.extra['second_pass'] = list(ck.tie_broken)
+        for name, fn, args in stages:
+            guarded(ck, name, fn, *args)
+            for stage, gen, fut in _pending:
+                guarded(ck, stage, None, resume=(gen, fut))
+            del _pending[:]
+        guarded(ck, 'search', search_lifecycle)
     # Failed obligations are explained when the search exhibits a concrete history of the corresponding class.
     keys = {v['key'] for v in ck.violations}
 
@@ -2137,6 +2150,10 @@ def run(ck: Ck) -> None:
     if has('idman-'):
         ck.explain('instance:idman_hint_lowered_only_by_positive_ids')
         ck.explain('correspondence:idman')
+    if has('-id-duplicate'):
+        ck.explain('instance:maps_get_idman_unless_preserve_ids')
+    if has('xmap-') or has('solid-id-duplicate') or has('face-id-duplicate'):
+        ck.explain('instance:helpers_build_every_part_in_the_one_map_they_are_given')
     if has('parse-') or has('-after-parse'):
         ck.explain('correspondence:parse')
         ck.explain('correspondence:parse-destructor-time')
